@@ -22,10 +22,11 @@ struct CvSpec {
   std::string comp_extra;   // extra lines inside the component block
   std::vector<V3> ref, vec; // rmsd / eigenvector: reference positions and (raw) vector, as written in the configuration
   bool normalize = false;   // eigenvector: normalizeVector
+  double coeff0 = 1, coeff1 = 1;   // combo: coefficients of the two distance components (groups 0,1 and 2,3)
   bool difference = false;  // eigenvector: differenceVector (vec holds positions; the vector is their fitted difference from ref)
   std::vector<V3> centred_vec() const;   // the vector as the library uses it (centred, normalised on request)
   bool periodic() const { return kind == "dihedral"; }
-  bool can_eval() const { return kind == "distance" || kind == "distanceZ" || kind == "distanceXY" || kind == "angle" || kind == "dihedral" || kind == "gyration" || ((kind == "rmsd" || kind == "eigenvector") && !ref.empty()); }
+  bool can_eval() const { return kind == "distance" || kind == "distanceZ" || kind == "distanceXY" || kind == "angle" || kind == "dihedral" || kind == "gyration" || kind == "combo" || ((kind == "rmsd" || kind == "eigenvector") && !ref.empty()); }
   double eval(TrajModel const &m, long step) const;
   std::string config() const;
   int ngroups() const;
